@@ -176,6 +176,18 @@ func (mgrScenario) Gen(r *Rng, tier string, opts map[string]string) interface{} 
 				mgrEvent{AtMs: t + 2500 + r.Intn(1500), Kind: "new_listener"}, mgrEvent{AtMs: t + 4500, Kind: "hot_restart_again", N: 2000 + r.Intn(50)}, mgrEvent{AtMs: t + 9000, Kind: "old_close"})
 			break
 		}
+		if r.Chance(1, 6) {
+			// acknowledgements of a foreign epoch (a client that answers an attempt long given up) arrive while
+			// nothing can be moved (the path is gone): the listener must not report a successful hand-over
+			ep := 1000 + r.Intn(50)
+			p.Events = append(p.Events, mgrEvent{AtMs: next(), Kind: "unlink_socket"}, mgrEvent{AtMs: next(), Kind: "hot_restart", N: ep})
+			for i, at := 0, t; i < 1+r.Intn(2); i++ {
+				at += r.Pick(1, 20, 60, 150, 500)
+				p.Events = append(p.Events, mgrEvent{AtMs: at, Kind: "stale_ack", N: ep + r.Pick(-7, -1, 1, 1000)})
+			}
+			p.Events = append(p.Events, mgrEvent{AtMs: t + 2500 + r.Intn(1500), Kind: "new_listener"}, mgrEvent{AtMs: t + 9000, Kind: "old_close"})
+			break
+		}
 		lateListener := r.Chance(1, 4)
 		noListener := !lateListener && r.Chance(1, 6)
 		if !lateListener && !noListener {
@@ -307,6 +319,7 @@ type mgrWorld struct {
 	rounds        int
 	benign        bool
 	cleanHandover bool
+	staleAcks     bool // acknowledgements of a foreign epoch have been injected
 }
 
 func (w *mgrWorld) on(p string) bool { return w.own == "" || w.own == p }
@@ -840,6 +853,21 @@ func (w *mgrWorld) director() {
 				simrt.Count("fault.hot_restart", 1)
 				w.lastFaultAt = simrt.Now()
 			}
+		case "stale_ack":
+			// every client session acknowledges a hot restart of an epoch the listener is not (or no longer) working on
+			ep := uint64(ev.N)
+			if ep != w.hotEpoch && w.sm != nil {
+				pools := append([]*streamPool(nil), w.sm.pools...)
+				simrt.GoProc(w.pc, "stale-ack", func() {
+					for _, pool := range pools {
+						if sess := pool.Session(); sess != nil && !sess.IsClosed() {
+							_ = sess.hotRestart(ep, typeHotRestartAck)
+						}
+					}
+				})
+				w.staleAcks = true
+				simrt.Count("fault.stale_hot_restart_ack", 1)
+			}
 		case "unlink_socket":
 			// the socket path disappears (a new server that unlinked it and died before listening): dials fail
 			_ = os.Remove(w.sock)
@@ -849,6 +877,16 @@ func (w *mgrWorld) director() {
 		case "old_close":
 			// the application lets the old server go once the hand-over is reported done: by then every pool
 			// must already be on a session of the announced epoch connected to the new server
+			if w.staleAcks && w.on("C16") && w.old != nil && w.old.listener != nil && w.old.listener.state == hotRestartDoneState && w.old.listener.epoch == w.hotEpoch {
+				// the listener reports a *successful* hand-over to this epoch: every pool must be on a session of it
+				for i, pool := range w.sm.pools {
+					if sp := pool.Session(); sp == nil || sp.epochID != w.hotEpoch {
+						w.fail("C16.not_migrated", map[string]string{"stale_acks": "yes"}, "the old listener reports the hot restart to epoch %d as successfully completed but pool %d is not on a session of that epoch (only acknowledgements of foreign epochs had been sent)", w.hotEpoch, i)
+						return
+					}
+				}
+				w.probes["stale_ack_success_verdict_checked"]++
+			}
 			if w.cleanHandover && w.on("C16") && w.old != nil && w.old.listener != nil && w.old.listener.IsHotRestartDone() {
 				for i, pool := range w.sm.pools {
 					s := pool.Session()
